@@ -132,6 +132,81 @@ def _run_scripts(tier, seed):
     return core.merge(core.pmap(work, core.chunked(cases, core.NPROC * 4))), len(cases)
 
 
+# ---- procedural bodies: every whitespace gap of a routine (between tokens and inside END IF / END LOOP / OR REPLACE ..)
+# respelled; the statement after the routine shows whether the routine still ends where it did
+PROC_BODIES = [
+    'create function f() returns int begin if a then update t set c = 1; end if; return 2; end',
+    'create or replace procedure p() begin while a loop set x = 1; end loop; end',
+    'create procedure p() begin for r in select 1 loop x := 1; end loop; end',
+    'create function f() returns int as begin case when a then x := 1; end case; return x; end',
+    'create function f() returns int as declare x int; begin x := 1; return x; end',
+    'create procedure p() begin if a then if b then set x = 1; end if; end if; end',
+    'create procedure p() begin while a do set x = 1; end while; end',
+    'create function f() returns int begin return case when a then 1 else 2 end; end',
+    'begin select 1; end',
+]
+GAP_WS = ['\n', '\t', '\r\n', '  ', ' \n ', '\n\t', '\n    ']
+
+
+def _proc_cases(tier):
+    import itertools
+    cases = []
+    for body in PROC_BODIES:
+        words = (body + '; select 1; select 2').split(' ')
+        gaps = len(words) - 1
+        cases.append((words, ()))
+        for w in GAP_WS:                                   # the whole script in one spelling
+            cases.append((words, tuple((g, w) for g in range(gaps))))
+        for g in range(gaps):
+            for w in GAP_WS:
+                cases.append((words, ((g, w),)))
+        if tier != 'quick' or True:
+            for g1, g2 in itertools.combinations(range(gaps), 2):
+                for w1 in GAP_WS[:4] if tier == 'quick' else GAP_WS:
+                    for w2 in GAP_WS[:4] if tier == 'quick' else GAP_WS:
+                        cases.append((words, ((g1, w1), (g2, w2))))
+    return cases
+
+
+def _proc_text(words, repl):
+    r = dict(repl)
+    out = [words[0]]
+    for i, w in enumerate(words[1:]):
+        out.append(r.get(i, ' '))
+        out.append(w)
+    return ''.join(out)
+
+
+def _run_proc(tier, seed):
+    cases = core.rotate(_proc_cases(tier), seed)
+
+    def work(chunk):
+        import sqlparse
+        acc = core.Acc(bits=22)
+        bases = {}
+        for words, repl in chunk:
+            key = tuple(words)
+            if key not in bases:
+                bt = ' '.join(words)
+                bases[key] = (bt, _shape_of(sqlparse, bt))
+            base_text, base_shape = bases[key]
+            text = _proc_text(words, repl)
+            if not repl:
+                acc.case(text, False, outcome='proc-base')
+                continue
+            sh = _shape_of(sqlparse, text)
+            acc.case(text, True, outcome='proc-respelling', sample={'base': base_text, 'respelled': text})
+            if sh != base_shape:
+                diff = oracles.shape_diff(base_shape, sh) if isinstance(sh, tuple) and isinstance(base_shape, tuple) else 'error'
+                cnt = f'{len(base_shape) if isinstance(base_shape, tuple) else "?"}->{len(sh) if isinstance(sh, tuple) else "?"} statements'
+                where = '+'.join(sorted({(words[g] + '_' + words[g + 1]).lower() for g, _ in repl})) if len(repl) <= 2 else 'uniform'
+                v = e2.viol('script-shape-differs', f'routine-whitespace|{cnt}|{where}'[:120], f'{diff}', text, {}, 'routine', len(repl))
+                v['base'] = base_text
+                acc.violation(v)
+        return acc.dump()
+    return core.merge(core.pmap(work, core.chunked(cases, core.NPROC * 4))), len(cases)
+
+
 def run(tier, seed):
     seeds = list(range(len(grammar.SEEDS)))
     bound = 2 if tier == 'quick' else 3
@@ -153,6 +228,11 @@ def run(tier, seed):
     parts.append((ms, {'scripts': nscripts, 'separator_spellings': len(SEP_WS) * 2},
                   'scripts of 2 (thorough: 3) statements from 8 plain seeds + 5 procedural statements x every '
                   'spelling of the whitespace after each semicolon'))
+    mp, nproc = _run_proc(tier, seed)
+    parts.append((mp, {'routine_cases': nproc, 'routines': len(PROC_BODIES), 'gap_spellings': len(GAP_WS)},
+                  'routine scripts (IF/LOOP/WHILE/CASE/DECLARE bodies followed by two plain statements): every single '
+                  'whitespace gap, every pair of gaps and the whole script respelled, including the gaps inside END IF, '
+                  'END LOOP, END WHILE, END CASE and OR REPLACE'))
     viols, vc = [], None
     n = nd = 0
     report, samples = [], []
